@@ -1302,6 +1302,52 @@ for need in ("pubfnlines(&self)->implIterator<Item=&LinuxOsStr>{self.split(b'\\n
     if need not in sm:
         die("strings.rs: expected `%s`" % need)
 
+# (g) MinidumpInfo::new: which streams the processor asks the reader for, and what a missing / unreadable stream means:
+#     0 = required (`.or(Err(ProcessError::..))?`: processing fails), 1 = optional (`.ok()` / `if let Ok(..)`: treated as absent),
+#     2 = optional with an empty default (`.unwrap_or_else(|_| X::default())` / `match .. Err(_) => X::new()`)
+m = re.search(r"pub enum MINIDUMP_STREAM_TYPE\s*\{(.*?)\n\}", fmt_src, re.S)
+if not m:
+    die("format.rs: enum MINIDUMP_STREAM_TYPE not found")
+stream_types = {}
+for ent in re.sub(r"/\*.*?\*/", "", re.sub(r"//[^\n]*", "", m.group(1)), flags=re.S).split(","):
+    ent = ent.strip()
+    if not ent:
+        continue
+    mm = re.match(r"^(\w+)\s*=\s*(0x[0-9a-fA-F_]+|[0-9_]+)$", ent)
+    if not mm:
+        die("format.rs: unrecognised entry %r in MINIDUMP_STREAM_TYPE" % ent)
+    stream_types[mm.group(1)] = int(mm.group(2).replace("_", ""), 0)
+reader_type = dict(re.findall(r"impl(?:<'a>)?MinidumpStream<'(?:a|_)>for(\w+)(?:<'a>)?\{constSTREAM_TYPE:u32=MINIDUMP_STREAM_TYPE::(\w+)asu32;", nows))
+k0 = pall.find("pubfnnew<T:Deref<Target=[u8]>+'a>(dump:&'aMinidump<'a,T>,options:ProcessorOptions<'a>,)->Result<Self,ProcessError>{")
+k1 = pall.find("Ok(MinidumpInfo{", k0)
+if k0 < 0 or k1 < 0:
+    die("processor.rs: MinidumpInfo::new not found")
+new_body = pall[k0:k1]
+policy = {}
+for var, reader, tail in re.findall(r"let(\w+)=dump\.get_stream::<(\w+)>\(\)((?:\.[^;]*)?);", new_body):
+    if re.fullmatch(r"\.or\(Err\(ProcessError::\w+\)\)\?", tail):
+        pol = 0
+    elif tail == ".ok()" or re.fullmatch(r"\.ok\(\)\.map\(\|info\|info\.raw\)", tail):
+        pol = 1
+    elif tail == ".unwrap_or_default()" or tail == ".unwrap_or_else(|_|%s::default())" % reader:
+        pol = 2
+    elif tail == "" and var == "breakpad_info":
+        pol = 1          # `if let Ok(info) = breakpad_info {..} else {(None, None)}` is pinned above
+    else:
+        die("MinidumpInfo::new: unrecognised treatment `%s` of get_stream::<%s>" % (tail, reader))
+    policy[reader] = pol
+for var, reader in re.findall(r"let(\w+)=matchdump\.get_stream::<(\w+)>\(\)\{Ok\(module_list\)=>module_list,Err\(_\)=>\2::new\(\),\};", new_body):
+    policy[reader] = 2
+if new_body.count("get_stream::<") != len(policy):
+    die("MinidumpInfo::new: %d get_stream calls, %d recognised" % (new_body.count("get_stream::<"), len(policy)))
+if "letmemory_list=dump.get_memory().unwrap_or_default();" not in new_body:
+    die("MinidumpInfo::new: expected `let memory_list = dump.get_memory().unwrap_or_default();`")
+policy_rows = []
+for reader, pol in policy.items():
+    if reader not in reader_type or reader_type[reader] not in stream_types:
+        die("no STREAM_TYPE found for reader %s" % reader)
+    policy_rows.append((stream_types[reader_type[reader]], pol, reader))
+
 pout = "\n".join([
     "(* GENERATED by translate/c14_reason.py from minidump-processor/src/processor.rs (MinidumpInfo::into_process_state) - do not edit *)",
     "From Coq Require Import ZArith List Bool.", "From RM Require Import C14.Model.", "Import ListNotations.", "Open Scope Z_scope.", "",
@@ -1318,7 +1364,9 @@ pout = "\n".join([
     "(* /proc/self/status: separator of linux_list_iter, the key LinuxProcStatus::from looks for (first match), the values for `absent` / `unparseable` *)",
     "Definition GEN_STATUS_SEP : Z := %d." % status_sep,
     "Definition GEN_STATUS_KEY : list Z := [%s]." % "; ".join(str(ord(ch)) for ch in status_key),
-    "Definition GEN_STATUS_ABSENT : Z := %d." % status_absent, "Definition GEN_STATUS_UNPARSEABLE : Z := %d." % status_bad, ""])
+    "Definition GEN_STATUS_ABSENT : Z := %d." % status_absent, "Definition GEN_STATUS_UNPARSEABLE : Z := %d." % status_bad, "",
+    "(* MinidumpInfo::new: (stream type, treatment of a missing / unreadable stream: 0 required, 1 optional -> None, 2 optional -> empty default), in the order of the get_stream calls *)",
+    "Definition GEN_STREAM_POLICY : list (Z * Z) :=\n  [%s]." % ";\n   ".join("(%d, %d) (* %s *)" % r for r in policy_rows), ""])
 ppath = os.path.join(outdir, "C14Process.v")
 try:
     same = open(ppath).read() == pout
